@@ -462,6 +462,58 @@ def sisdr_range_bounded_instance():
     return Instance('C19', F_SISDR, 'bounded-from-poor-to-nearly-lossless-estimates', make, call, ensures, mode='bounded', bounded_n=120, frame=False)
 
 
+def sxr_range_bounded_instance():
+    """input_sxr / output_sxr from poor to nearly perfect separation (leakage and noise down to 180 dB below the wanted source): the
+    ratios equal the defining power sums evaluated term by term, 1/SDR = 1/SIR + 1/SNR, and the scaling laws hold there too.
+    (A total-minus-target rearrangement of the interference power is the same number over the reals and cancels catastrophically here.)"""
+    from pb_bss.evaluation import sxr_module as sx
+
+    def make(B):
+        return {'Ks': B.choose('Ks', [1, 2, 3]), 'extra': B.choose('extra', [0, 0, 1]), 'leak': B.choose('leak', [-1, -2, -4, -6, -7, -8, -9]),
+                'noise': B.choose('noise', [-1, -3, -6, -9]), 'T': B.choose('T', [40, 2000]), 'seed': B.choose('seed', list(range(3000))), 'd': B.given('d', np.zeros(1))}
+
+    def call(inp):
+        rng = np.random.RandomState(inp['seed'])
+        Ks, Kt, T = inp['Ks'], inp['Ks'] + inp['extra'], inp['T']
+        pick = rng.permutation(Kt)[:Ks]                                   # source k is wanted in output pick[k]
+        ic = 10.0 ** inp['leak'] * rng.normal(size=(Ks, Kt, T))
+        for k in range(Ks):
+            ic[k, pick[k]] = rng.normal(size=T) * rng.uniform(0.5, 2.0)
+        nc = 10.0 ** inp['noise'] * rng.normal(size=(Kt, T))
+        c = 10.0 ** rng.uniform(-3, 3)
+        o = sx.output_sxr(ic, nc, average_sources=False)
+        o_all = sx.output_sxr(c * ic, c * nc, average_sources=False)
+        o_img = sx.output_sxr(c * ic, nc, average_sources=False)
+        return {'o': [np.asarray(v) for v in o], 'o_all': [np.asarray(v) for v in o_all], 'o_img': [np.asarray(v) for v in o_img],
+                'ic': ic, 'nc': nc, 'pick': pick, 'c': c}
+
+    def ensures(sp, inp, out):
+        ic, nc, pick = out['ic'], out['nc'], out['pick']
+        Ks = ic.shape[0]
+        S_ = np.mean(ic ** 2, axis=-1)
+        N_ = np.mean(nc ** 2, axis=-1)
+        sdr, sir, snr = out['o']
+        want_sir, want_snr, want_sdr = np.zeros(Ks), np.zeros(Ks), np.zeros(Ks)
+        for k in range(Ks):
+            j = pick[k]
+            I_ = sum(S_[k2, j] for k2 in range(Ks) if k2 != k)
+            with np.errstate(divide='ignore'):
+                want_sir[k] = 10 * np.log10(S_[k, j] / I_) if I_ > 0 else np.inf
+                want_snr[k] = 10 * np.log10(S_[k, j] / N_[j])
+                want_sdr[k] = 10 * np.log10(S_[k, j] / (I_ + N_[j]))
+        tol = 1e-6
+        yield 'sir-is-the-defining-ratio[leak=1e%d]' % inp['leak'], bool(np.allclose(sir, want_sir, rtol=0, atol=tol))
+        yield 'snr-is-the-defining-ratio', bool(np.allclose(snr, want_snr, rtol=0, atol=tol))
+        yield 'sdr-is-the-defining-ratio', bool(np.allclose(sdr, want_sdr, rtol=0, atol=tol))
+        lin = lambda x: 10.0 ** (-np.asarray(x, dtype=float) / 10.0)      # noqa
+        yield 'reciprocal-identity', bool(np.allclose(lin(sdr), lin(sir) + lin(snr), rtol=1e-9, atol=0))
+        yield 'common-rescaling-invariant', bool(all(np.allclose(a, b, rtol=0, atol=tol) for a, b in zip(out['o'], out['o_all'])))
+        yield 'images-scaled-sir-unchanged-snr-shifted', bool(np.allclose(out['o_img'][1], sir, rtol=0, atol=tol)
+                                                                and np.allclose(out['o_img'][2], snr + 20 * np.log10(out['c']), rtol=0, atol=tol))
+
+    return Instance('C19', F_OUT, 'bounded-from-poor-to-nearly-perfect-separation', make, call, ensures, mode='bounded', bounded_n=120, frame=False)
+
+
 def instances(tier):
     th = tier == 'thorough'
     out = []
@@ -531,4 +583,4 @@ _instances_before_simplex = instances
 
 def instances(tier):       # noqa: F811
     from .common import simplex_lemma_instances
-    return _instances_before_simplex(tier) + [sisdr_range_bounded_instance()] + simplex_lemma_instances('C19')
+    return _instances_before_simplex(tier) + [sisdr_range_bounded_instance(), sxr_range_bounded_instance()] + simplex_lemma_instances('C19')
